@@ -19,6 +19,7 @@ ASSUMPTIONS = simnet.ASSUMPTIONS + [
 ]
 
 KINDS = ("T", "B", "F", "P", "O")  # text, binary, fragmented binary (2 frames), ping, pong
+# extra kind "G": a text message whose single 2-byte character is split across two fragments
 
 
 def _frames(kind, i):
@@ -34,6 +35,11 @@ def _frames(kind, i):
         p = sx.sym_bytes("e%d" % i, 2)
         return (server_frame(0, 2, p[:1]) + server_frame(1, 0, p[1:]),
                 [("on_data", (p, 2, True)), ("on_message", (p,))])
+    if kind == "G":
+        p = sx.sym_bytes("e%d" % i, 2)
+        sx.assume(sx.And(p[0] >= 0xC2, p[0] <= 0xDF, p[1] >= 0x80, p[1] <= 0xBF))  # one well-formed 2-byte character
+        return (server_frame(0, 1, p[:1]) + server_frame(1, 0, p[1:]),
+                [("on_data", (sx.text_of(p), 1, True)), ("on_message", (sx.text_of(p),))])
     if kind == "P":
         p = sx.sym_bytes("e%d" % i, 1)
         return server_frame(1, 9, p), [("on_ping", (p,))]
@@ -158,6 +164,9 @@ def obligations(tier):
                         continue
                     hist.append(dict(kinds=list(kinds), groups=list(groups), tls=tls))
     for tls in (False, True):
+        hist.append(dict(kinds=["G"], groups=[], tls=tls))
+        hist.append(dict(kinds=["T", "G", "B"], groups=[1, 0], tls=tls))
+        hist.append(dict(kinds=["G", "P", "G"], groups=[0, 1], tls=tls))
         hist.append(dict(kinds=["F"], groups=[], tls=tls, split_frag=True))
         hist.append(dict(kinds=["P", "F", "T"], groups=[1, 1], tls=tls, split_frag=True))
     subset = []
